@@ -66,7 +66,8 @@ def build_cli():
     """Build the real cwe_checker binary (caller crate) with the hook guard enabled."""
     t = time.time()
     flags = "--cfg %s --check-cfg cfg(%s)" % (GUARD, GUARD)
-    p = sh(["cargo", "build", "--offline", "-p", "cwe_checker", "--target-dir", CLI_TARGET],
+    p = sh(["cargo", "build", "--offline", "-p", "cwe_checker", "--target-dir", CLI_TARGET,
+            "--config", "profile.dev.opt-level=1", "--config", "profile.dev.debug=false"],
            cwd=REPO, env={"RUSTFLAGS": flags}, timeout=3600, check=False)
     if p.returncode != 0:
         raise ToolError("cli build failed:\n" + p.stdout[-6000:])
